@@ -19,24 +19,29 @@ theorem take_mono_wt {vtys : List CSem.Ty} {n m : Nat} (h : n ≤ m) (e : Expr)
   simp [show i < m by omega, h1]
 
 section
-variable (T : Stat) {s : Store} {out : CSem2.Outcome} {lp : Bool} {brk cont : String} {c : SCtx}
+variable (T : Stat) {s : Store} {out : CSem2.Outcome} {lp : Bool × Bool} {brk cont : String} {c : SCtx}
   {nd nd' : Nat} {pre post : List Item} {env : Env} {M : Mem}
 
 theorem sim_dowhile (n : Nat) (ih : ∀ m, m ≤ n → SimStmt T m) (b : Stmt) (e : Expr)
     (hex : exec T.S.cs (n + 1) s (.dowhile b e) = some out) (hfr : frag (.dowhile b e) = true)
-    (hwt : Stmt.wt T.vtys T.ret lp nd (.dowhile b e) = some nd') (hp : Pos T c nd pre)
+    (hwt : Stmt.wt T.vtys T.ret lp.1 lp.2 nd (.dowhile b e) = some nd') (hp : Pos T c nd pre)
     (hext : Ext T (funcstmt T.S.cs brk cont (.dowhile b e) c).ctx)
     (hits : T.S.its = pre ++ (funcstmt T.S.cs brk cont (.dowhile b e) c).items ++ post)
     (inv : SInv T.S.cs T.σ T.vtys s env M) :
     Post T lp brk cont (T.at env M pre) (pre ++ (funcstmt T.S.cs brk cont (.dowhile b e) c).items)
       (funcstmt T.S.cs brk cont (.dowhile b e) c).ctx out := by
   simp only [frag] at hfr
-  simp only [Stmt.wt, Option.bind_eq_some_iff] at hwt
-  obtain ⟨n1, hwb, hwt⟩ := hwt
+  have hw' : ∃ n1, Stmt.wt T.vtys T.ret true true nd b = some n1 ∧
+      (if e.wt (T.vtys.take nd) = true then some n1 else none) = some nd' := by
+    simp only [Stmt.wt] at hwt
+    split at hwt
+    · simpa [Option.bind_eq_some_iff] using hwt
+    · cases hwt
+  obtain ⟨n1, hwb, hwt⟩ := hw'
   split at hwt
   · rename_i hwe
     cases hwt
-    obtain ⟨hnb, hcb⟩ := wt_noDead _ _ b _ _ _ hwb
+    obtain ⟨hnb, hcb⟩ := wt_noDead _ _ b _ _ _ _ hwb
     have hwe' : e.wt (T.vtys.take nd') = true := take_mono_wt (by omega) e hwe
     simp only [funcstmt] at hext hits ⊢
     have gb := funcstmt_good T.S.cs b (lblName "do_join" (c.blockid + 3)) (lblName "do_cond" (c.blockid + 2))
@@ -148,11 +153,11 @@ theorem sim_dowhile (n : Nat) (ih : ∀ m, m ≤ n → SimStmt T m) (b : Stmt) (
         | none => rw [heb] at hex; cases hex
         | some ob' =>
           rw [heb] at hex
-          have pb := ih (k + 1) hk b s ob' true (lblName "do_join" (c.blockid + 3))
+          have pb := ih (k + 1) hk b s ob' (true, true) (lblName "do_join" (c.blockid + 3))
             (lblName "do_cond" (c.blockid + 2)) _ nd nd' _ _ env M heb hfr hwb hpb
-            (by rw [hob]; exact hextb) (by rw [hob]; exact hitsbody) (fun _ => ⟨hcj, hcc⟩) inv
+            (by rw [hob]; exact hextb) (by rw [hob]; exact hitsbody) ⟨fun _ => hcj, fun _ => hcc⟩ inv
           rw [hob] at pb
-          have dn := pb.close hitsC (fun _ => ⟨hcj, hcc⟩)
+          have dn := pb.close hitsC ⟨fun _ => hcj, fun _ => hcc⟩
           cases ob' with
           | normal s' =>
             simp only at hex
